@@ -169,12 +169,14 @@ Print Assumptions C05_schedule_refuted_no_early_exit.
 
 (* every run with the cache is observably a run without it on the same paths (hence every theorem
    above about `run` applies), for all interleavings of worker starts, callbacks and main-loop
-   steps, provided the solver honours its own non-empty cores: it answers unsat on every
-   potential-violation query that contains a non-empty core it reported for another one.
+   steps -- without --cache-solver unconditionally, with it provided the solver honours its own
+   non-empty cores: it answers unsat on every potential-violation query that contains a non-empty
+   core it reported for another one.
    An EMPTY core list names no assertion and promises nothing: it is exempt, so the theorem
    holds only because the code never caches one. *)
 Theorem C05_cache_refines : forall cache ee qs sched,
-  (forall p q c, In p qs -> In q qs -> potential (base p) = true -> potential (base q) = true ->
+  (cache = true ->
+   forall p q c, In p qs -> In q qs -> potential (base p) = true -> potential (base q) = true ->
      ans (base p) = Unsat -> qcore p = Some c -> c <> [] ->
      (forall x, In x c -> In x (qids q)) -> ans (base q) = Unsat) ->
   exists sched',
@@ -186,7 +188,8 @@ Print Assumptions C05_cache_refines.
 (* in particular: without --early-exit the verdict is the specified one for every order in which
    solver answers arrive and are consumed, cache on or off *)
 Theorem C05_cache_schedule : forall cache qs sched r,
-  (forall p q c, In p qs -> In q qs -> potential (base p) = true -> potential (base q) = true ->
+  (cache = true ->
+   forall p q c, In p qs -> In q qs -> potential (base p) = true -> potential (base q) = true ->
      ans (base p) = Unsat -> qcore p = Some c -> c <> [] ->
      (forall x, In x c -> In x (qids q)) -> ans (base q) = Unsat) ->
   ~ In CMainRaise sched ->
@@ -197,7 +200,8 @@ Print Assumptions C05_cache_schedule.
 
 (* all schedules, with and without --early-exit: the same three outcomes as without the cache *)
 Theorem C05_cache_schedule_any_partial : forall cache ee qs sched r,
-  (forall p q c, In p qs -> In q qs -> potential (base p) = true -> potential (base q) = true ->
+  (cache = true ->
+   forall p q c, In p qs -> In q qs -> potential (base p) = true -> potential (base q) = true ->
      ans (base p) = Unsat -> qcore p = Some c -> c <> [] ->
      (forall x, In x c -> In x (qids q)) -> ans (base q) = Unsat) ->
   cresult (crun cache ee qs sched) = Some r ->
@@ -210,7 +214,8 @@ Print Assumptions C05_cache_schedule_any_partial.
 
 (* PASS is never affected by the cache or the schedule *)
 Theorem C05_cache_failsafe : forall cache ee qs sched r,
-  (forall p q c, In p qs -> In q qs -> potential (base p) = true -> potential (base q) = true ->
+  (cache = true ->
+   forall p q c, In p qs -> In q qs -> potential (base p) = true -> potential (base q) = true ->
      ans (base p) = Unsat -> qcore p = Some c -> c <> [] ->
      (forall x, In x c -> In x (qids q)) -> ans (base q) = Unsat) ->
   cresult (crun cache ee qs sched) = Some r ->
@@ -235,6 +240,14 @@ Theorem C05_cache_pass_sound : forall (sem : list nat -> bool) qs,
   (exists p, In p qs /\ kind (base p) = Success).
 Proof. exact (fun sem qs M S => cache_pass_sound sem M qs S). Qed.
 Print Assumptions C05_cache_pass_sound.
+
+(* without --cache-solver the two systems agree whatever core lists the replies carry *)
+Theorem C05_nocache_refines : forall ee qs sched,
+  exists sched',
+    (In EvMainRaise sched' -> In CMainRaise sched) /\
+    cresult (crun false ee qs sched) = result (run ee (map base qs) sched').
+Proof. exact nocache_refines. Qed.
+Print Assumptions C05_nocache_refines.
 
 (* without --cache-solver the shared list stays empty and no query is answered from it *)
 Theorem C05_nocache_inert : forall ee qs sched,
